@@ -149,3 +149,40 @@ add("C16",
     "exactness-taint postconditions on the symbolic runs (bounded in shape) + concrete representation-pair runs of the real code (bounded)")
 ENGINE_F += ["C15"]
 ENGINE_S += ["C15", "C16"]
+
+# ---- revised after the engine-V extension (these override the entries above) ----
+add("C03",
+    "Engine V proves for vectors of EVERY length: the constructor accepts exactly the well-formed clamped vectors (__is_valid in both degree modes, __new__: "
+    "index safety, termination, 'accepted <=> non-decreasing, ends repeated exactly degree+1 times, interior multiplicities <= degree+1, npts > degree', degree / npts "
+    "fields consistent), the binary span search (U[k] <= u < U[k+1] / umax case), valid, limits, degree, npts, ImmutableKnotVector.__add__/__sub__, and for every "
+    "KnotVector mutator (insert, remove, shift, scale, normalize, +=, -=, *=, |=, &=, degree=, internal=) that a raising request leaves the payload object in place "
+    "and a successful one installs a well-formed payload (atomicity for all inputs); frame analysis shows instances are immutable and only built through __new__, "
+    "which lifts well-formedness to every KnotVector reachable through any operation history. The same facts are also decided exhaustively over all vectors up to a "
+    "length bound over a 4-value alphabet (engine B), queries and mutators with symbolic knot values per shape (engine S), and all operation sequences up to a depth bound. " + S_NOTE,
+    "DESIGN.md 5/C03", COMMON_TRUST + " Assumed inside the V proofs (A10): tuple.count on a sorted tuple is one contiguous block; __get_unique returns the increasing "
+    "distinct values under A3. KnotVector('0011') -> TypeError is known finding D4; knots closer than 1e-6 D3.",
+    "contracts on the real functions discharged by a VC generator over the Python AST + z3 (unbounded), frame analysis, plus exhaustive small-domain enumeration and symbolic per-shape execution (bounded)")
+add("C04",
+    "Engine V proves that Operations.one_knot_insert_once returns exactly Boehm's closed-form matrix (identity rows, alpha / 1-alpha band, shift rows) with index "
+    "safety, no division by zero and termination, for EVERY knot vector, interior node and admissible multiplicity, and that ImmutableKnotVector.__add__ validates the "
+    "interval and returns the constructor's result on the sorted concatenation. That the composed matrices preserve the function (refinement identity on every new "
+    "span), that Curve.knot_insert yields the sorted multiset union and the same (rational) function, and that overflow / outside / end nodes raise ValueError with "
+    "unchanged state, is checked for all knot values, node values in a span (0 included), control points and positive weights per shape. " + S_NOTE,
+    "DESIGN.md 5/C04", COMMON_TRUST + " A10 for the assumed contracts of span()/mult() inside the V proof.",
+    "contracts on the real functions: VC generator over the Python AST + z3 for the single-insertion matrix (unbounded); real code on symbolic field elements, path-exhaustive per shape and node class (bounded in shape)")
+add("C06",
+    "Engine V proves degree_increase_bezier_once == the closed-form Bezier elevation matrix for ALL degrees. Curve.degree_increase / degree setter / degree_decrease and "
+    "the composed heavy elevation matrices: multiplicities and degree + t, C_new == C_old on every span (symbolic points and weights), exactness; reduction of elevated "
+    "input returns the original points; generic input refused (unchanged) or accepted within tolerance (exact LDL^T); tolerance=None interpolates; Bezier elevation "
+    "also with symbolic interval ends. " + S_NOTE,
+    "DESIGN.md 5/C06", COMMON_TRUST + " Linalg.invert is run-time monitored (A4).",
+    "contracts on the real functions: VC generator + z3 for the single Bezier elevation matrix (unbounded); real code on symbolic control points / weights over concrete knot vectors (bounded in shape)")
+add("C18",
+    "Engine V proves, for ALL degrees, npts, positive weight vectors and EVERY draw of randint: bezier / integer / weight / uniform / random return clamped vectors "
+    "with the requested degree and npts, the closed-form knots (equal spacing, spacing w, interval exactly [0,1], simple interior knots), and for ALL vectors that shift / "
+    "scale / normalize map every knot affinely, keep degree / npts / length, land on exactly [0,1] and never leave the object changed after an exception (reals; the IEEE "
+    "clause is a concrete check on doubles with d*(1/d) != 1). Invariance N_i(sU+a, su+a) == N_i(U,u) and of curves by running the real evaluation code on both symbolic "
+    "vectors per shape; generator closed forms additionally enumerated up to a bound. " + S_NOTE,
+    "DESIGN.md 5/C18", COMMON_TRUST + " cls(x) is modelled as the numeric embedding of x (A2); the constructor is used by its proved contract (A10).",
+    "contracts on the real functions: VC generator over the Python AST + z3 for generators and affine maps (unbounded, incl. a nonlinear monotonicity lemma); real code on symbolic knots for the invariance (bounded)")
+ENGINE_V += ["C04", "C06", "C18"]
